@@ -330,7 +330,8 @@ def predicate_set(F, body, depth=4):
 
     def is_var(o):
         p = op_place(o)
-        return p is not None and not p["p"] and p["l"] == arg
+        # the parameter itself, or `*param` when the closure takes the byte by reference (`|&b| ..`)
+        return p is not None and p["l"] == arg and (not p["p"] or p["p"] == ["*"])
 
     bv = ByteVar(F, body, is_var, depth)
     R = bv.reach_sets()
